@@ -21,7 +21,7 @@ pub struct Corr {
     pub mid: u16,
 }
 
-fn check_response_for(m: &Msg, acc: &mut Acc) -> Result<(), Fail> {
+fn check_response_for(m: &Msg, _acc: &mut Acc) -> Result<(), Fail> {
     let p = from_msg(m);
     let resp = match catch(|| CoapResponse::new(&p)) {
         Ok(r) => r,
